@@ -447,11 +447,47 @@ func c09Families() []c09family {
 		}},
 		// well-formed, consistent lists of EVERY size 1..260 (so that the C layer runs to the end of its
 		// per-group buffers: a stack/heap switch or a batch boundary at some exact size has nowhere to hide)
-		{"list-sizes", fixedN(840, 6240), func(r *rand.Rand, i int) c09cmd {
-			n := 1 + (i/6)%260 // (quick: sizes 1..140, thorough: 1..260 four times)
+		{"list-sizes", fixedN(1120, 8320), func(r *rand.Rand, i int) c09cmd {
+			n := 1 + (i/8)%260 // (quick: sizes 1..140, thorough: 1..260 four times)
 			pool := c09KeyPool()
 			desc := fmt.Sprintf("well-formed lists of size n=%d", n)
-			switch i % 6 {
+			switch i % 8 {
+			case 6, 7: // threshold reconstruction from exactly n shares (threshold n-1), stateless / stateful
+				k := min(max(n, 2), 254)
+				signers := make([]int, k)
+				shares := make([]crypto.Signature, k)
+				for j := range signers {
+					signers[j] = (j*7 + i) % 254
+					shares[j] = fx.blsSig
+				}
+				// distinct signer indices: a stride-7 walk modulo 254 repeats only after 254 steps
+				if i%8 == 6 {
+					return c09cmd{"BLSReconstructThresholdSignature", fmt.Sprintf("%d shares, threshold %d", k, k-1), func() string {
+						_, err := crypto.BLSReconstructThresholdSignature(254, k-1, shares, signers)
+						if !errIn(err, crypto.IsInvalidInputsError, crypto.IsDuplicatedSignerError, crypto.IsInvalidSignatureError, crypto.IsNotEnoughSharesError) {
+							return bad("BLSReconstructThresholdSignature", desc, err.Error())
+						}
+						return ""
+					}}
+				}
+				return c09cmd{"ThresholdSignatureInspector(sequence)", fmt.Sprintf("%d shares, threshold %d", k, k-1), func() string {
+					pks := make([]crypto.PublicKey, 254)
+					for j := range pks {
+						pks[j] = pool[j%len(pool)]
+					}
+					ins, err := crypto.NewBLSThresholdSignatureInspector(pool[0], pks, k-1, fx.msg, "thr")
+					if err != nil {
+						return bad("NewBLSThresholdSignatureInspector", desc, err.Error())
+					}
+					for j := range signers {
+						_, _ = ins.TrustedAdd(signers[j], shares[j])
+					}
+					_, err = ins.ThresholdSignature()
+					if !errIn(err, crypto.IsInvalidInputsError, crypto.IsInvalidSignatureError, crypto.IsNotEnoughSharesError) {
+						return bad("ThresholdSignature", desc, err.Error())
+					}
+					return ""
+				}}
 			case 0: // n messages under one key
 				pks, msgs, hs := make([]crypto.PublicKey, n), make([][]byte, n), make([]hash.Hasher, n)
 				for j := range pks {
